@@ -512,8 +512,8 @@ func genC06(r *Runner) {
 			kss := sequences(c06CrlFaults, nk)
 			for _, os := range oss {
 				for _, ks := range kss {
-					if quick && no == 2 && nk >= 1 && rng.Intn(8) != 0 {
-						continue // class-coverage sampling in the quick tier
+					if quick && no == 2 && nk == 2 && rng.Intn(4) != 0 {
+						continue // two responders x two distribution points: sampled in the quick tier (14^2 x 6^2 assignments)
 					}
 					l := levelSpec{ocspURLs: urlsN(ocspURL, 0, no), ocspBeh: os, crlURLs: urlsN(crlURL, 0, nk), crlBeh: ks}
 					cases = append(cases, one(l, 2, fmt.Sprintf("assign-o%dk%d", no, nk)))
@@ -532,6 +532,16 @@ func genC06(r *Runner) {
 		}
 	}
 	cases = append(cases, crlSchemeFaultCases([][]string{nil, {"http-500"}, {"timeout"}, {"unknown"}, {"good"}})...)
+	// every CRL behaviour of the alphabet as the only distribution point: without OCSP, behind a failing and behind a timed-out responder
+	for _, kb := range crlAlphabet {
+		for _, ob := range [][]string{nil, {"http-500"}, {"timeout"}} {
+			l := levelSpec{ocspURLs: urlsN(ocspURL, 0, len(ob)), ocspBeh: ob, crlURLs: urlsN(crlURL, 0, 1), crlBeh: []string{kb}}
+			cases = append(cases, one(l, 2, "crl-single:"+kb))
+		}
+		c := one(levelSpec{crlURLs: urlsN(crlURL, 0, 1), crlBeh: []string{kb}}, 2, "crl-single-real-fetcher:"+kb)
+		c.realFetcher = true
+		cases = append(cases, c)
+	}
 	// chains of 2..4: faults on one certificate, genuine answers on the others (isolation)
 	nMulti := 600
 	if !quick {
